@@ -49,7 +49,7 @@ Proof. unfold hash_ok. apply String.eqb_eq. Qed.
 Lemma read_all_sound st check b :
   hcr_read_all H (fresh st check) = (b, EEOF) -> b = s_bytes st /\ s_term st = TEOF /\ H b = check.
 Proof.
-  unfold hcr_read_all, fresh. cbn [h_st h_pos h_check]. rewrite drop_0. destruct (s_term st); [|intros [= _ E]; discriminate].
+  unfold hcr_read_all, fresh. cbn [h_st h_pos h_check]. rewrite drop_0. destruct (s_term st); try (intros [= _ E]; discriminate).
   destruct (hash_ok H check (s_bytes st)) eqn:E; [|intros [= _ X]; discriminate].
   intros [= <-]. split; [reflexivity|]. split; [reflexivity|]. apply hash_ok_eq. exact E.
 Qed.
@@ -57,14 +57,14 @@ Qed.
 Lemma write_to_sound st check b :
   hcr_write_to H (fresh st check) = (b, ENil) -> b = s_bytes st /\ s_term st = TEOF /\ H b = check.
 Proof.
-  unfold hcr_write_to, fresh. cbn [h_st h_pos h_check]. rewrite drop_0. destruct (s_term st); [|intros [= _ E]; discriminate].
+  unfold hcr_write_to, fresh. cbn [h_st h_pos h_check]. rewrite drop_0. destruct (s_term st); try (intros [= _ E]; discriminate).
   destruct (hash_ok H check (s_bytes st)) eqn:E; [|intros [= _ X]; discriminate].
   intros [= <-]. split; [reflexivity|]. split; [reflexivity|]. apply hash_ok_eq. exact E.
 Qed.
 
 Lemma close_sound r : hcr_close H r = ENil -> s_term (h_st r) = TEOF /\ H (s_bytes (h_st r)) = h_check r.
 Proof.
-  unfold hcr_close. destruct (s_term (h_st r)); [|discriminate].
+  unfold hcr_close. destruct (s_term (h_st r)); try discriminate.
   destruct (hash_ok H (h_check r) (s_bytes (h_st r))) eqn:E; [|discriminate]. intros _. split; [reflexivity|apply hash_ok_eq; exact E].
 Qed.
 
@@ -75,7 +75,7 @@ Proof.
   unfold hcr_read_full, fresh. cbn [h_st h_pos h_check]. rewrite drop_0.
   destruct (k <=? slen (s_bytes st)) eqn:E.
   - intros [= <- <-]. apply Nat.leb_le in E. cbn. auto.
-  - destruct (s_term st); [|intros [= _ X]; discriminate].
+  - destruct (s_term st); try (intros [= _ X]; discriminate).
     destruct (hash_ok H check (s_bytes st)); [destruct (slen (s_bytes st) =? 0)|]; intros [= _ X]; discriminate.
 Qed.
 
@@ -89,13 +89,14 @@ Qed.
 
 (* every way a stream can be wrong ends in an error at all three entry points *)
 Lemma bad_stream_rejected st check :
-  s_term st = TUEOF \/ H (s_bytes st) <> check ->
+  s_term st <> TEOF \/ H (s_bytes st) <> check ->
   snd (hcr_read_all H (fresh st check)) <> EEOF /\ snd (hcr_write_to H (fresh st check)) <> ENil /\ hcr_close H (fresh st check) <> ENil.
 Proof.
   intros Hbad. unfold hcr_read_all, hcr_write_to, hcr_close, fresh. cbn [h_st h_pos h_check snd].
   destruct (s_term st).
-  - destruct Hbad as [X|X]; [discriminate|].
+  - destruct Hbad as [X|X]; [contradiction|].
     destruct (hash_ok H check (s_bytes st)) eqn:E; [apply hash_ok_eq in E; contradiction|]. repeat split; discriminate.
+  - repeat split; discriminate.
   - repeat split; discriminate.
 Qed.
 
@@ -124,7 +125,7 @@ Proof.
     rewrite IH; cbn [h_st h_pos h_check]; try lia.
     unfold hcr_read_all. cbn [h_st h_pos h_check fst snd]. rewrite append_assoc, Nat.add_1_r, take1_drop_cons by exact E. reflexivity.
   - apply Nat.ltb_ge in E. unfold hcr_read_all. cbn [fst snd]. rewrite (drop_all (h_pos r)) by exact E.
-    destruct (s_term (h_st r)); [destruct (hash_ok H (h_check r) (s_bytes (h_st r)))|]; reflexivity.
+    destruct (s_term (h_st r)); [destruct (hash_ok H (h_check r) (s_bytes (h_st r)))| |]; reflexivity.
 Qed.
 
 (* ------------------------------------------------------------------ getOrHead *)
@@ -135,7 +136,7 @@ Variable oracle : nat -> nat -> response.
    announced size is the size hint (when there is one) and the declared length (when there is one) *)
 Definition from_200 (expect : option nat) (x round size : nat) (st : stream) : Prop :=
   exists declared body cut,
-    oracle x round = Resp 200 declared body cut /\ st = transport declared body cut /\
+    oracle x round = Resp 200 declared body cut /\ st = sized size (transport declared body cut) /\
     (forall n, declared = Some n -> n = size) /\ (forall e, expect = Some e -> e = size) /\
     (expect = None -> declared <> None).
 
@@ -185,19 +186,28 @@ Proof.
   intros _. apply Nat.leb_le in E. rewrite slen_take. lia.
 Qed.
 
+(* the sized reader (fix F25): a stream that ends in a clean EOF has exactly the expected size, whatever the
+   response declared; and sizing never turns an unclean end into a clean one *)
+Lemma sized_eof_len n st : s_term (sized n st) = TEOF -> slen (s_bytes (sized n st)) = n /\ sized n st = st.
+Proof.
+  unfold sized. destruct (n <? slen (s_bytes st)) eqn:E1; cbn [s_term s_bytes]; [discriminate|].
+  destruct (slen (s_bytes st) <? n) eqn:E2; cbn [s_term s_bytes].
+  - destruct (s_term st); discriminate.
+  - intros _. apply Nat.ltb_ge in E1, E2. split; [lia|reflexivity].
+Qed.
+
 (* DESIGN get_stream_sound *)
 Theorem get_stream_sound retries order loc x rd size st lg b :
   get_or_head oracle retries order loc = {| g_res := GOk x rd size st; g_log := lg |} ->
   hcr_read_all H (fresh st (loc_hash loc)) = (b, EEOF) ->
   H b = loc_hash loc /\
   (forall e, size_hint loc = Some e -> size = e) /\
-  (forall n body cut, oracle x rd = Resp 200 (Some n) body cut -> slen b = size) /\
+  slen b = size /\
   (forall c, H c = loc_hash loc -> b = c \/ collision b c).
 Proof.
   intros G R. apply get_or_head_ok in G. destruct G as (declared & body & cut & Eo & Est & Hd & He & _).
   apply read_all_sound in R. destruct R as (Hb & Ht & Hh). split; [exact Hh|]. split; [intros e E; symmetry; apply He; exact E|]. split.
-  - intros n body' cut' Eo'. rewrite Eo in Eo'. injection Eo' as -> -> ->. rewrite Hb, Est.
-    rewrite Est in Ht. rewrite (transport_declared_len n body' cut' Ht). apply Hd. reflexivity.
+  - rewrite Hb, Est. rewrite Est in Ht. apply (sized_eof_len _ _ Ht).
   - intros c Hc. apply same_digest_same_or_collision. congruence.
 Qed.
 
